@@ -216,6 +216,7 @@ def _run(ctx, case, link, prefix):
         txn0 = len(rt.txn_log)
         t_call = node.t
         head_before = bytes(rt.tx_fifo[0].data) if rt.tx_fifo else None
+        rx_before = [bytes(e[1]) for e in rt.rx_fifo]
         if call["op"] == "send":
             n = call.get("n", 1)
             bufs = []
@@ -287,6 +288,15 @@ def _run(ctx, case, link, prefix):
                     ctx.violation(prefix + "resend-empty-fifo", "resend() with an empty TX FIFO "
                                   "returned %r, %d packets on air" % (ret, len(pk)), case)
                     return
+                # "returning False when there is none": nothing to re-send, nothing to clean up -
+                # what waits in the RX FIFO (an ACK payload the application has not read yet) stays
+                if [bytes(e[1]) for e in rt.rx_fifo] != rx_before:
+                    ctx.violation(prefix + "resend-empty-fifo/rx-fifo-lost", "resend() with an empty TX FIFO "
+                                  "returned False and emptied the RX FIFO (%d payload(s) were waiting)"
+                                  % len(rx_before), case)
+                    return
+                if rx_before:
+                    ctx.count("resend_empty_with_rx_waiting")
                 continue
             ctx.clause("resend_payload")
             if failed_payload is not None and head_before != failed_payload:
